@@ -23,9 +23,10 @@ KDG = "osaca/semantics/kernel_dg.py"
 FE = "osaca/frontend.py"
 TRUSTED = ["pyvc symbolic semantics; z3 5.1.0", "A: networkx dag_longest_path / is_directed_acyclic_graph / DiGraph.copy/add_edge / utils.pairwise as specified in this file"]
 ASSUMPTIONS = [
-    "structural bound: <= 3 instructions, every subset of forward edges, optional separate load node per instruction; all weights symbolic >= 0 (label Pb, reported as bounded)",
+    "get_critical_path for ANY kernel length: the library's dag_longest_path enters as an arbitrary path of the handed-over graph (A: it is one of maximal weight); maximality over all chains is checked on structures (next line) and by the bounded oracle",
+    "structural bound of the Pb units: <= 3 instructions (4 in the thorough tier), every subset of forward edges, optional separate load node per instruction; all weights symbolic >= 0 (label Pb, reported as bounded)",
     "the dependency graph is the one create_DG builds (C03): edges point forward, a load node l+0.1 has the single edge to l",
-    "A-float",
+    "latencies are rationals (IEEE rounding of float sums not modelled)",
 ]
 
 
@@ -212,7 +213,11 @@ def cp_unit(nins):
 
 
 def units(tier):
+    from .c13 import combined_view_unit, dict_unit
+    FE = "osaca/frontend.py"
     return [
+        Unit("C04/combined_view(CP cells and CP total = sum of the critical-path lines' contributions)", combined_view_unit, "Pb", [(FE, "Frontend.combined_view")], decisive=False),
+        Unit("C04/full_analysis_dict(LatencyCP per line, CriticalPath total)", dict_unit, "Pb", [(FE, "Frontend.full_analysis_dict")], decisive=False),
         Unit("C04/get_critical_path(any kernel length, any library path)", cp_any_unit, "P", [(KDG, "KernelDG.get_critical_path")], timeout=1200),
         Unit("C04/get_critical_path/1-instruction", cp_unit(1), "Pb", [(KDG, "KernelDG.get_critical_path")]),
         Unit("C04/get_critical_path/2-instructions", cp_unit(2), "Pb", [(KDG, "KernelDG.get_critical_path")]),
